@@ -157,6 +157,11 @@ class ImageFormation(HoloPyObject):
         coords = {
             point_or_flat: flattened_schema.coords[point_or_flat],
             vector: ['x', 'y', 'z']}
+        if point_or_flat == 'point':
+            # a point detector keeps its positions in per-point coordinates
+            coords.update({
+                key: val for key, val in flattened_schema.coords.items()
+                if val.dims == ('point',) and key != 'point'})
         scattered_field = xr.DataArray(
             scattered_field, dims=[point_or_flat, vector], coords=coords,
             attrs=schema.attrs)
